@@ -10,7 +10,7 @@ RULE = (
     "argument shapes as a single component (and under not()) on a file whose data records are ALL pairs over a 13-cell alphabet plus "
     "ragged rows and blank records; P2 all ordered pairs (thorough: triples) from a 24-component interaction alphabet (tests, "
     "assignments feeding later tests, when/do, onmatch/nocontrib forms, count-dependent tests) in both logic modes over all files of "
-    "<=3 records from a 6-row alphabet; P3 boolean nests to depth 3 over six atoms; P4 the P2 pairs under 6 scan windows. Lines on "
+    "<=3 records from a 6-row alphabet; P3 boolean nests to depth 3 over six atoms; P4 the P2 pairs under 6 scan windows; P5 orderings of 4-6 independent pure components in both modes. Lines on "
     "which the documentation is silent (string functions of absent values, mixed-type ordering) are not asserted; non-trivial = "
     "the program both accepts and rejects at least one line; state = (variables, counters, record)"
 )
@@ -187,6 +187,14 @@ def cases(tier, seed):
         for c in nxt:
             yield {"blk": "P3", "comps": [c], "file": "F1", "and": True, "scan": [["all"]]}
         level = nxt
+    # P5 four to six independent components (every ordering of distinct per-record-pure atoms), both modes, on the all-pairs file
+    pure = [["==", A, T("1")], fn("above", [], [B, T(1)]), fn("empty", [], [B]), fn("in", [], [A, T("abc|2|10")]), fn("not", [], [fn("exists", [], [A])]), fn("below", [], [A, T(9)])]
+    for k in (4, 5, 6):
+        perms = list(itertools.permutations(range(len(pure)), k))
+        step = 1 if tier == "thorough" else (6 if k < 6 else 12)
+        for t in perms[::step]:
+            for mode in (True, False):
+                yield {"blk": "P5", "comps": [pure[i] for i in t], "file": "F1", "and": mode, "scan": [["all"]]}
     # P4 scan windows
     wins = WINDOWS
     pairs = list(itertools.permutations(range(len(INTERACT)), 2))
